@@ -204,6 +204,96 @@ CLAIMED = {
             'regex engine (the master regular expressions are compared as text by the tie, not modelled).', 'DESIGN.md §6 C17'),
 }
 
+# ---- texts revised as the proofs grew (later definitions win) ----
+def _upd(pid, technique=None, level=None, trusted=None):
+    t, l, n, d = CLAIMED[pid]
+    CLAIMED[pid] = (technique or t, level or l, trusted or n, d)
+
+
+_upd('C12',
+     'Lean 4 proof that the composed parser model ends, for every text, in a tree or in one of the library\'s syntax errors: '
+     'path + item invariants of the LR driver checked against regenerated LR(0) item-set and rank certificates, shape typing of '
+     'the semantic actions, invariants of the parser-driven lexer; full text->tree correspondence incl. exact error messages; '
+     'exhaustive truncation/corruption judge under a time limit',
+     'parse_total (Props/C12all): for EVERY text and comment flag Model.Parser.parse (lexer x ply driver over the regenerated tables '
+     'x probed actions x p_error) is accepted, ECMASyntaxError, ECMARegexSyntaxError or ProductionError - never an internal '
+     'exception (parse_no_driver_internal: no missing goto / stack underflow, kernel-checked item certificate; '
+     'parse_lexer_errors_are_syntax_errors through token, auto_semi, the guarded back-track and _raise_syntax_error; '
+     'parse_action_errors_are_production_errors by a shape typing closed under every action row), never ply\'s recovery mode, '
+     'never out of fuel (lr_steps_bounded: iterations <= 55 * (successful lexer/p_error calls + 1) for every semantics and source, '
+     'from rank certificates; parser_source_bound <= 8|text|+4 calls; parse_never_out_of_fuel). The model is tied to parse() by '
+     'comparing trees and exact exception class + message; the judge runs every truncation and single-character corruption of G1 '
+     'programs, all strings <= 2 and sampled 3-8 over a lexical alphabet, in a forked child with a time limit.',
+     'Trusted: Lean kernel, standard axioms, translators (tables, item/rank certificates are untrusted and checked), hand-transcribed '
+     'regex matchers (tie S1), ply driver / action interpreter models (ties S2, S2b). Python recursion limit, memory and the running '
+     'time of the re engine are outside the model (judge: per-case time limit).')
+_upd('C13',
+     'Lean 4 simulation proof that comment capture is transparent through the lexer, p_error, the LR run and the semantic actions; '
+     'end-to-end faithfulness, single attachment and source order of captured comments on accepted trees; kernel decisions over the '
+     'action table and the unparser definitions; systematic comment-placement judge',
+     'comments_transparent: for EVERY text erase(parse text true) = parse text false (same acceptance, error, tree with positions). '
+     'comments_faithful_ordered: on every accepted tree the @comments attributes are a sub-permutation of set_comments of the shifted '
+     'tokens, every captured comment is a comment lexeme verbatim at its recorded offset, per-node source order, cross-token '
+     'disjointness, strictly increasing offsets (no source comment attached to two nodes) - unconditional (shifted_ordered). Printing '
+     'clauses: comment_carriers_print_comments_partial with the recorded deviations KF-13a..e proved as witnesses. Judge: one comment of '
+     'three kinds at every token gap of hand-written, G1 and G2 programs.',
+     None)
+_upd('C20',
+     'Lean 4 proof over every chunk stream the unparser walk can yield, lifted through the layout normalisation to the FINAL fragment '
+     'stream, with kernel-decided balance facts over the regenerated definitions and rule tables; fragment-stream correspondence for '
+     'every rule set; independent depth judge on the output text',
+     'pretty_lines_indented: for every tree and node kind (case/default bodies included) and every indent string of non-terminator '
+     'white space, every line of the final output that starts with a token begins with exactly indent x structural depth, the level '
+     'ends at 0; pretty_text_ends_with_one_newline; level_returns_to_zero for all trees, indents and hooks. Three decidable '
+     'hypotheses on the chunk stream (token texts do not start/end with a line terminator, lineStartsStable, tailSafe) are each shown '
+     'necessary by kernel-evaluated witnesses and evaluated by the model on every program of the tie. The judge recomputes depth from '
+     'the printed text with its own scanner (nesting to 65 levels, 6 + random indent strings).',
+     None)
+_upd('C07',
+     'Lean 4 proof of the name-generator and remap-table invariants, of resolve-level injectivity, of "only identifiers change" on the '
+     'final fragment stream, and that ES5 scope resolution commutes with a renaming satisfying a decidable alignment condition; '
+     'scope-tree / remap-table / fragment-stream correspondence; binding-structure judge with an independent ES5 scope resolver',
+     'generated_not_reserved, generator_fresh, remap_tables_capture_free, top_level_unchanged, remap_injective_visible, '
+     'only_identifiers_change (final stream equals the un-obfuscated one up to identifier pairs, under keysPlain), '
+     'resolution_commutes_with_renaming, binding_preserved_partial (alignedOf = some true -> every occurrence resolves to the same '
+     'declaring scope, binder map one-to-one, free/top-level names kept). One lemma is open: not excluded -> aligned (the exclusion '
+     'predicate covers exactly the recorded deviation classes KF-07a/b/c, each with a kernel witness that binding is NOT preserved); '
+     'it is evaluated by the model on every program of the run as an obligation. Judge: Spec.Scope bindings of original vs output '
+     'occurrence by occurrence on generated scope-heavy programs for all flag combinations and rule compositions.',
+     None)
+_upd('C11',
+     'Lean 4 kernel decision over the probed semantic-action table x the regenerated grammar, composed by an invariant over ply\'s '
+     'tracking run (value stack <-> derivation trees) and invariants of the parser-driven lexer (line table, token columns, '
+     'spellings); driver+actions correspondence; independent judge of every node of real trees',
+     'node_positions_ok: for EVERY text, every node built by any action in any configuration Model.Parser.parse passes through carries '
+     '[lexpos, lineno, col] with (lineno, col) = the ES5 line/column of lexpos, of a shifted token of its own yield (its first token, '
+     'or its operator for the listed forms; exempt shapes spelled out), and every fresh token-map entry likewise with the recorded '
+     'text - no hypothesis on tokens is left. The table is tied to the real p_* functions by probing and by S2b/S2.',
+     None)
+_upd('C01', None,
+     'print_ignores_positions(_any), print_fuel_irrelevant, pretty_fixpoint hold for ALL trees and indent strings over the unparser '
+     'model (tied by S3/S4); lexical layer: token_classes_consistent, first_last_closed_pretty, pretty_stream_typed (for every tree '
+     'respecting the slot typing - evaluated on every parsed tree of the run - the printed symbol stream starts/ends in the root '
+     'kind\'s certificate and every two consecutive symbols are in the follow relation), direct_adjacent_safe_pretty_partial (every '
+     'direct token-token pair of the follow relation is safe under longest-match lexing; exclusions KF-01 + two abstraction '
+     'artefacts). NOT proved: pairs separated by layout markers and the grammar layer (reference parse of the printed tokens returns '
+     'the tree) - judged: parse -> print -> parse (real parser, adjacent calls, and reference parser) -> print on G1/G2, edge-operand '
+     'forms and a statement-boundary matrix x 6 indent strings, with and without comments.',
+     None)
+_upd('C02', None,
+     'minify_ignores_positions, minify_same_structure for ALL trees and both drop_semi settings (tied by S3/S4); lexical layer: '
+     'first_last_closed_minify, minify0/1_stream_typed, direct_adjacent_safe_minify_partial; table facts space_table_hits/gaps, '
+     'minify_space_handlers, no_statement_slot_after_optional_space, dropped_semis_are_asi_restorable_partial; regression facts of '
+     'the repaired defects; kernel witnesses of the open findings. NOT proved: token pairs separated by layout markers (where '
+     'KF-02b/c/f live) and the grammar layer; judged: re-parse by real and reference parser modulo line continuations / removed empty '
+     'statements, equality of the reference token sequences (no fusion), dropped semicolons exactly ASI-restorable, on G1/G2, a '
+     'statement-boundary matrix and a targeted generator of token class x slot pairs.',
+     None)
+_upd('C03', None, None,
+     'Trusted: Lean kernel, standard axioms, translators g_tables.py/g_actions.py, Spec.Es5Parse as a reading of ECMA-262 5.1; ply '
+     'LALR construction itself is not verified (the tables are the object of study).')
+
+
 
 def main():
     checks = []
